@@ -63,7 +63,7 @@ class TlcResult:
 
 
 def run_tlc(work, module, cfg, env=None, workers=None, timeout=900, simulate=None,
-            seed=None, depth_first=False, cases_to=None, xmx="12g", coverage=True):
+            seed=None, depth_first=False, cases_to=None, xmx="8g", coverage=True):
     """Run TLC on spec/<module>.tla with spec/<cfg>.  CASE lines are streamed to the
     file cases_to (one JSON document per line) if given, else collected."""
     os.makedirs(work, exist_ok=True)
